@@ -27,7 +27,7 @@ Proof. exact execute_eq_tx. Qed.
 Print Assumptions C30_execute_eq_tx.
 
 (* SimulateActions: whenever the transaction (any declarations) succeeds, SimulateActions on the same state
-   succeeds and returns the same outputs (the recording scope never refuses). *)
+   succeeds and returns the same outputs (the recording scope refuses only keys no transaction scope can grant). *)
 Theorem C30_simulate_eq_tx :
   forall (extra : checks) (base : key -> option val) (fee : diff) (acts : list (checks * prog)) (os : list bytes),
     tx_run extra base fee acts = (os, true) ->
@@ -35,41 +35,31 @@ Theorem C30_simulate_eq_tx :
 Proof. exact simulate_eq_tx. Qed.
 Print Assumptions C30_simulate_eq_tx.
 
-(* Sufficiency of the simulated key sets.  Full intended statement (the property's second sentence):
-     forall extra base fee ps rs, run_sim (vis base fee) [] ps = Some rs -> decl_valid extra = true ->
-       tx_run extra base fee (combine (map snd rs) ps) = (map fst rs, true).
-   It is FALSE for the code as it is (C30_simulate_sufficient_refuted, known finding
-   "simulation-succeeds-touching-undeclarable-key"): SimulatedKeys.Has answers true for a key shorter than two
-   bytes but Keys.Add does not record it, and no transaction can declare such a key.  Proved: the statement for
-   all action lists that touch valid keys only ([sim_touch_valid]); the guard excludes exactly the finding
-   (C30_simulate_guard_exact: when it is false no transaction runs these actions to success at all). *)
-Theorem C30_simulate_sufficient_partial :
+(* Sufficiency of the simulated key sets (the property's second sentence): whenever SimulateActions succeeds,
+   the transaction whose actions declare exactly the reported key sets (plus any valid sponsor keys) succeeds
+   with the simulated outputs: every check the recording scope answered was recorded, and it records valid keys
+   only.
+   History: before /repo 1b6be2f ("fix: SimulatedKeys must refuse a key that no transaction can declare", finding
+   F-24) SimulatedKeys.Has answered true for a key shorter than two bytes without recording it, so this statement
+   was false for actions reading or removing such a key (simulation ok, every transaction fails); the model then
+   had [check MRecord] = Some rec for an invalid key and the theorem carried a guard.  With the fix the recording
+   scope refuses such a key exactly as every transaction scope does and the statement holds without a guard. *)
+Theorem C30_simulate_sufficient :
   forall (extra : checks) (base : key -> option val) (fee : diff) (ps : list prog) (rs : list (bytes * checks)),
     run_sim (vis base fee) [] ps = Some rs ->
-    sim_touch_valid base fee ps = true ->
     decl_valid extra = true ->
     tx_run extra base fee (combine (map snd rs) ps) = (map fst rs, true).
 Proof. exact simulate_sufficient. Qed.
-Print Assumptions C30_simulate_sufficient_partial.
+Print Assumptions C30_simulate_sufficient.
 
-Definition cx_prog : prog := Get [65] (fun _ => Get [208; 0; 1] (fun x => Ret (echo x))).
-
-Theorem C30_simulate_sufficient_refuted :
-  exists (base : key -> option val) (ps : list prog) (rs : list (bytes * checks)),
-    run_sim (vis base []) [] ps = Some rs
-    /\ tx_run [] base [] (combine (map snd rs) ps) <> (map fst rs, true).
-Proof.
-  exists (s_get [([208; 0; 1], [7])]), [cx_prog], [([1; 1; 7], [([208; 0; 1], P_READ)])].
-  split; [vm_compute; reflexivity|]. vm_compute. discriminate.
-Qed.
-Print Assumptions C30_simulate_sufficient_refuted.
-
-Theorem C30_simulate_guard_exact :
-  forall (extra : checks) (base : key -> option val) (fee : diff) (acts : list (checks * prog)),
-    sim_touch_valid base fee (map snd acts) = false ->
-    snd (tx_run extra base fee acts) = false.
-Proof. exact touching_invalid_never_executes. Qed.
-Print Assumptions C30_simulate_guard_exact.
+(* The simulated key sets are also sufficient action by action: ExecuteActions (per-action scopes) on the same
+   actions, each declaring exactly its own simulated key set, succeeds with the simulated outputs. *)
+Theorem C30_simulate_sufficient_execute :
+  forall (base : key -> option val) (fee : diff) (ps : list prog) (rs : list (bytes * checks)),
+    run_sim (vis base fee) [] ps = Some rs ->
+    run_exec (vis base fee) [] (combine (map snd rs) ps) = (map fst rs, true).
+Proof. exact simulate_sufficient_execute. Qed.
+Print Assumptions C30_simulate_sufficient_execute.
 
 (* Enlarging a scope never changes the outcome of a successful run: of one action on a view, and of a whole
    transaction (this is why the union scope of a transaction agrees with the per-action scopes of
@@ -85,17 +75,6 @@ Proof.
   - apply run_tx_mono. exact Hle.
 Qed.
 Print Assumptions C30_scope_monotone.
-
-(* The simulated key sets are also sufficient action by action: ExecuteActions (per-action scopes) on the same
-   actions, each declaring exactly its own simulated key set, succeeds with the simulated outputs.  Same guard as
-   above (same known finding: a per-action scope cannot permit an invalid key either — Keys.Has finds no entry). *)
-Theorem C30_simulate_sufficient_execute_partial :
-  forall (base : key -> option val) (fee : diff) (ps : list prog) (rs : list (bytes * checks)),
-    run_sim (vis base fee) [] ps = Some rs ->
-    sim_touch_valid base fee ps = true ->
-    run_exec (vis base fee) [] (combine (map snd rs) ps) = (map fst rs, true).
-Proof. exact simulate_sufficient_execute. Qed.
-Print Assumptions C30_simulate_sufficient_execute_partial.
 
 (* ---- non-vacuity: concrete scripts (the programs the driver's test action executes) *)
 Definition ex_k1 : key := [208; 0; 1].
@@ -127,13 +106,16 @@ Proof. vm_compute. split; reflexivity. Qed.
 Example ex_sufficient_hyp :
   run_sim (vis (s_get ex_state) []) [] (map snd ex_acts)
     = Some [([80; 0], [(ex_k2, P_WRITE); (ex_k1, P_ALLOCATE); (ex_k1, P_WRITE); (ex_k1, P_READ)]);
-            ([80; 1; 1; 9; 0], [(ex_k1, P_WRITE); (ex_k2, P_READ); (ex_k1, P_READ)])]
-  /\ sim_touch_valid (s_get ex_state) [] (map snd ex_acts) = true.
-Proof. vm_compute. split; reflexivity. Qed.
-
-Example ex_guard_exact_hyp :
-  sim_touch_valid (s_get [([208; 0; 1], [7])]) [] [cx_prog] = false.
+            ([80; 1; 1; 9; 0], [(ex_k1, P_WRITE); (ex_k2, P_READ); (ex_k1, P_READ)])].
 Proof. vm_compute. reflexivity. Qed.
+
+(* the repaired defect (F-24): an action that reads a one-byte key is refused by the simulation, as it is by
+   every transaction — before the fix the simulation returned Some [([1; 1; 7], [([208; 0; 1], P_READ)])] *)
+Definition cx_prog : prog := Get [65] (fun _ => Get [208; 0; 1] (fun x => Ret (echo x))).
+Example ex_invalid_key_refused :
+  run_sim (vis (s_get [([208; 0; 1], [7])]) []) [] [cx_prog] = None
+  /\ tx_run [] (s_get [([208; 0; 1], [7])]) [] [([([208; 0; 1], P_READ)], cx_prog)] = ([], false).
+Proof. vm_compute. split; reflexivity. Qed.
 
 Example ex_monotone_hyp :
   forall a b k r, has (perm_of a k) r = true -> has (perm_of (a ++ b) k) r = true.
